@@ -251,15 +251,9 @@ pub fn c08_native<G: AffineRepr + 'static>(seed: u64, maxlen: usize) -> Checks {
             prefixes.push(q.wrapping_sub(d));
             prefixes.push(((u128::pow(2, 64) * (d as u128 + 1) + 7) / psz as u128) as u64);
         }
-        for huge in prefixes {
-            for off in [off_l, off_l + 8 + k_of(&shape) * psz] {
-                if off + 8 <= bytes.len() {
-                    let mut b2 = bytes.clone();
-                    b2[off..off + 8].copy_from_slice(&huge.to_le_bytes());
-                    cases.push(b2);
-                }
-            }
-        }
+        // (the encodings with inflated counts are decoded in the child process with a limited address space, see
+        // `c08_child`: a decoder that allocates from the claimed count aborts the process, which no in-process guard catches)
+        let _ = (&prefixes, off_l);
         for _ in 0..32 {
             use rand_core::RngCore;
             let mut b2 = vec![0u8; bytes.len()];
@@ -345,6 +339,40 @@ pub fn c08_child<G: AffineRepr + 'static>(seed: u64) -> bool {
             None => return false,
         };
         let (pts, scs, ipp) = proof.verif_parts();
+        // encodings whose list counts are inflated (huge, wrapping around 2^64 when multiplied by the point size, every top byte)
+        {
+            let bytes = proof.to_bytes().unwrap();
+            let psz = pts[0].serialized_size(ark_serialize::Compress::Yes);
+            let ssz = scs[0].serialized_size(ark_serialize::Compress::Yes);
+            let off_l = 11 * psz + 3 * ssz;
+            let mut counts: Vec<u64> = vec![u64::MAX, u64::MAX - 1, 1u64 << 63, 1u64 << 62, 1u64 << 57, 1u64 << 40, 1u64 << 32, (1u64 << 32) - 1, 1u64 << 28, 1u64 << 24, 1u64 << 20, (bytes.len() as u64) + 1];
+            for top in 0..=255u64 {
+                counts.push((top << 56) | 0x0123_4567_89ab_cd);
+            }
+            for d in 0..6u64 {
+                let q = (u128::pow(2, 64) / psz as u128) as u64;
+                counts.push(q.wrapping_add(d));
+                counts.push(q.wrapping_sub(d));
+                counts.push(((u128::pow(2, 64) * (d as u128 + 1) + 7) / psz as u128) as u64);
+            }
+            let mut bad = 0usize;
+            let mut n = 0usize;
+            for huge in counts {
+                for off in [off_l, off_l + 8 + k_of(&shape) * psz] {
+                    if off + 8 <= bytes.len() {
+                        let mut b2 = bytes.clone();
+                        b2[off..off + 8].copy_from_slice(&huge.to_le_bytes());
+                        n += 1;
+                        match R1CSProof::<G>::from_bytes(&b2) {
+                            Ok(_) | Err(R1CSError::FormatError) => {}
+                            Err(_) => bad += 1,
+                        }
+                    }
+                }
+            }
+            println!("c08-child gates={} inflated-count encodings={} wrong-error-kind={}", g, n, bad);
+            all &= bad == 0;
+        }
         let (_l, _r, a, b) = ipp.verif_parts();
         let fill: G = G::Group::rand(&mut rng).into_affine();
         for k in [5usize, 12, 20, 24, 27, 28, 29, 30, 31] {
